@@ -17,30 +17,39 @@ LEVEL = "exploration"
 EXHAUSTIVE = True
 RULE = ("Exhaustive part: every non-deprecated (op, since_version) of the default domain reachable from opsets 13..23 (thorough: 1..23) that "
         "has >=1 input and no graph attribute x every input position that admits a tensor (plus one position in a variadic tail; thorough: "
-        "three) x literals {0, 1, -3, 2.5, -0.0, True, [1, 2], [0.5]} x layout (optional predecessors as tensors / as None; literal alone or "
-        "followed by a tensor in a variadic) x sibling mode (siblings = other operands whose formal parameter has the same schema type "
-        "variable: tensors of every schema-allowed dtype among 13 numpy-backed dtypes / all siblings literal / no sibling). The call text "
+        "three) x literals {0, 1, -3, 2.5, -0.0, True, [1, 2], [0.5]} (thorough: 8 more float32-exact ones) x layout (optional predecessors "
+        "as tensors / as None; literal alone or followed by a tensor in a variadic) x call form (positional; the literal passed by keyword as "
+        "the last provided input, with or without omitted optional inputs before it; Python operator `X + LIT` / `LIT + X` for the 14 ops the "
+        "converter maps operators to) x sibling mode (siblings = other operands whose formal parameter has the same schema type variable: "
+        "tensors of every schema-allowed dtype among 13 numpy-backed dtypes / all siblings literal / no sibling). The call text "
         "`op.Op(X0, LIT, ..., required_attr=dummy)` is (1) translated inside a @script function (all statements of one op in one function) and "
         "the Constant[+CastLike] chain feeding operand p is evaluated with onnx.reference for the sibling dtype, (2) evaluated as Python under "
         "a spy BaseEvaluator that records the adapted inputs and returns dummies, (3) evaluated against GraphBuilder.op with typed inputs "
-        "(initializer read back) and with untyped inputs (initializer + CastLike evaluated with onnx.reference). The op itself is never "
-        "executed. Oracle: each front end yields the element type given by the rule (sibling's dtype if a type variable is shared, else "
-        "INT64/FLOAT/BOOL by Python type), the literal's shape (scalar -> rank 0, list -> rank 1) and the literal's value converted to that "
-        "type (bit-exact incl. the sign of zero; float literal -> FLOAT is round-to-nearest); a refusal is accepted only where the literal "
-        "is not exactly representable in the target type, and then no value is demanded. A front end that also refuses the same call with a "
-        "tensor in place of the literal is not judged on that call. Sequence part (Hypothesis): 2..8 literal uses from a 30-op table in ONE "
-        "script function / ONE GraphBuilder (typed and untyped), literal pool with 0/0.0/-0.0/False, 1/True/1.0, 2**53 neighbours, 2**24+1, "
-        "NaN, inf, 0.1, 0.001, lists thereof; same oracle per use (catches constant-cache sharing). Non-trivial = a sibling of a dtype other "
-        "than the literal's default dtype exists, or the position is optional/variadic; distinct by (op, since, text, position, dtypes).")
+        "(initializer read back) and with untyped inputs (initializer + CastLike evaluated with onnx.reference); operator forms have no "
+        "builder route. The op itself is never executed. Oracle: each front end yields, AT THE SCHEMA POSITION of the literal, the element "
+        "type given by the rule (sibling's dtype if a type variable is shared, else INT64/FLOAT/BOOL by Python type), the literal's shape "
+        "(scalar -> rank 0, list -> rank 1) and the literal's value converted to that type (bit-exact incl. the sign of zero; float literal -> "
+        "FLOAT is round-to-nearest); a refusal is accepted only where the literal is not exactly representable in the target type, and then "
+        "no value is demanded. A front end that also refuses the same call with a tensor in place of the literal is not judged on that call. "
+        "Sequence part (Hypothesis): 2..8 literal uses from a 30-op table in ONE script function / ONE GraphBuilder (typed and untyped), "
+        "literal pool grouped by ==-equality (0/0.0/-0.0/False, 1/True/1.0, 2**53 neighbours, 2**24+1, NaN, inf, 0.1, 0.001, lists thereof); "
+        "same oracle per use (catches constant-cache sharing); lists mixing bool/int/float have no rule target: there the front ends that "
+        "accept the list must agree pairwise on type and value. Non-trivial = a sibling of a dtype other than the literal's default dtype "
+        "exists, or the position is optional/variadic; distinct by (op, since, text, position, dtypes).")
 ASSUMPTIONS = ["onnx.reference implements Constant and CastLike(Cast) exactly for values representable in the target type",
                "numpy (with ml_dtypes for bfloat16) converts a Python number to a dtype by correct rounding; this defines the expected value",
                "onnx.defs schemas define which operands share a type variable; ill-typed calls (siblings of different dtypes) are outside the domain",
-               "evaluating the call text with op bound to the opset object under a spy evaluator is what eager mode does inside a script function"]
-FLOOR = {"quick": 20000, "thorough": 40000}
+               "evaluating the call text with op bound to the opset object under a spy evaluator is what eager mode does inside a script function",
+               "a CastLike node emitted under an opset < 15 (where ONNX has no CastLike; a validity matter for C02, not judged here) means CastLike-15+",
+               "only the operand at the literal's schema position is observed; the op is never executed (dummy required attributes, shape [2] operands)"]
+FLOOR = {"quick": 15000, "thorough": 40000}
 TIMEOUT = {"quick": 1500, "thorough": 5 * 3600}
 
-# Named regions of confirmed findings that the *sequence* generator keeps out of while developing (see report); the
-# exhaustive part cannot reach them (each case has a fresh builder, all its float literals are float32-exact).
+# Named regions of confirmed findings the generators keep out of (development switch; the regions of committed known findings
+# are added at run time, see active_exclusions).  Names: float_literal_rounded_via_float32, builder_cache_conflates_signed_zero,
+# builder_nan_literal_twice, mixed_type_list (sequence part; the exhaustive part cannot reach them: fresh builder per case,
+# float32-exact homogeneous literals)
+# and keyword_input_after_omitted_optional (both parts).
 EXCLUDE: set = set(filter(None, os.environ.get("VERIF_C12_EXCLUDE", "").split(",")))
 
 SUP = ["FLOAT", "DOUBLE", "FLOAT16", "BFLOAT16", "INT8", "INT16", "INT32", "INT64", "UINT8", "UINT16", "UINT32", "UINT64", "BOOL"]
@@ -49,12 +58,11 @@ TYPE_STR = {"tensor(float)": "FLOAT", "tensor(double)": "DOUBLE", "tensor(float1
             "tensor(uint8)": "UINT8", "tensor(uint16)": "UINT16", "tensor(uint32)": "UINT32", "tensor(uint64)": "UINT64",
             "tensor(bool)": "BOOL", "tensor(string)": "STRING"}
 OPERAND_PREF = ["FLOAT", "INT64", "BOOL", "DOUBLE", "INT32", "UINT8", "FLOAT16", "INT8", "BFLOAT16", "INT16", "UINT16", "UINT32", "UINT64", "STRING"]
-FAMILY = {"FLOAT": "FLOAT", "DOUBLE": "DOUBLE", "FLOAT16": "F16", "BFLOAT16": "BF16", "BOOL": "BOOL",
-          "INT8": "int", "INT16": "int", "INT32": "int", "INT64": "int", "UINT8": "uint", "UINT16": "uint", "UINT32": "uint", "UINT64": "uint"}
 # onnx's C++ shape inference for SplitToSequence divides by the constant `split` (SIGFPE kills the process when a typed
 # GraphBuilder infers the node).  An onnx defect, unrelated to literal promotion: the typed-builder observation is skipped there.
 NATIVE_CRASH = {("SplitToSequence", 1, "0")}
 MAIN_LITERALS = ["0", "1", "-3", "2.5", "-0.0", "True", "[1, 2]", "[0.5]"]
+THOROUGH_LITERALS = MAIN_LITERALS + ["False", "1.0", "255", "-128", "65504.0", "[True, False]", "[-0.0]", "[3]"]  # all float32-exact
 FRONTENDS = ["static", "eager", "builder", "builder_untyped"]
 # Python operators the converter maps to ops (converter.primop_map) and onnxscript.tensor.Tensor overloads for eager mode.
 # Reflected forms (literal on the left) only where Tensor defines the reflected method; comparisons are right-literal only
@@ -92,7 +100,14 @@ def default_dtype(v):
     return "FLOAT"
 
 
+def is_mixed(v):
+    """A list whose elements are not all of one Python type (bool, int, float are three types)."""
+    return isinstance(v, list) and len({type(e) for e in v}) > 1
+
+
 def lit_class(v):
+    if is_mixed(v):
+        return "mixedlist"
     if isinstance(v, list):
         return lit_class(v[0]) + "list"
     if isinstance(v, bool):
@@ -635,6 +650,8 @@ def judge(case, obs):
     """obs: {frontend: observation}.  Returns (verdicts [(bucket, detail)], info)."""
     v = lit_value(case["lit"])
     target = case["target"]
+    if is_mixed(v):
+        return judge_mixed(case, obs, v)
     kind, exp = expect(v, target)
     lc = lit_class(v)
     has_sib = any(o["sib"] for o in case["operands"].values())
@@ -658,7 +675,7 @@ def judge(case, obs):
             continue
         _, dt, shape, hexbytes, short = o
         if dt != target:
-            got_d = "literal's default dtype" if dt == default_dtype(v) else dt
+            got_d = "literal's default dtype" if dt == default_dtype(v) else "a third dtype"
             want_d = "sibling's dtype" if has_sib else f"default {target}"
             problems.setdefault(("dtype", f"{got_d} instead of {want_d}"), []).append(fe)
             continue
@@ -683,6 +700,12 @@ def judge(case, obs):
                     sub = "number"
             problems.setdefault(("value", sub), []).append(fe)
             info.setdefault("got", {})[fe] = short
+    misplaced = ("odd", "no input at the literal's position")
+    if misplaced in problems and any(f.startswith("builder") for f in problems[misplaced]):
+        # the other GraphBuilder variant choking on the literal at the wrong position is the same root cause
+        for key in [k for k in problems if k[0] == "refuse" and all(f.startswith("builder") for f in problems[k])]:
+            problems[misplaced] = [f for f in FRONTENDS if f in problems[misplaced] or f in problems[key]]
+            del problems[key]
     verdicts = []
     for (pk, sig), fes in sorted(problems.items()):
         # Buckets name a root cause: (kind of deviation, deviating front ends, Python type / class of the literal) - never the
@@ -695,6 +718,9 @@ def judge(case, obs):
         if (pk, sig) == ("value", "sign-of-zero"):
             bucket = f"value:{merged}:sign-of-zero"  # typed and untyped GraphBuilder share one constant cache
         elif pk == "value":
+            route = ("static", "builder_untyped")  # both emit a default-typed constant followed by CastLike
+            if set(fes) <= set(route) and all(f in fes or obs.get(f, ("skip",))[0] == "skip" for f in route):
+                fe_s = "+".join(route)
             bucket = f"value:{fe_s}:{base} literal:{sig}"
         elif pk == "odd":
             bucket = f"odd:{merged}:{sig}:form={case.get('form', 'positional')}"
@@ -710,6 +736,29 @@ def judge(case, obs):
                   f"{_short(exp) if exp is not None else '<not exactly representable>'}; {pk} [{sig}] in {fes}; observed {seen}")
         verdicts.append((bucket, detail))
     return verdicts, info
+
+
+def judge_mixed(case, obs, v):
+    """Lists mixing bool/int/float: the rule names no element type (the converter table and the builder docs cover homogeneous
+    lists only), so a refusal is accepted anywhere; the front ends that do accept the list must still agree on type and value."""
+    vals = {}
+    for fe in FRONTENDS:
+        o = obs.get(fe)
+        if o is None or o[0] in ("skip", "refuse"):
+            continue
+        if o[0] == "harness":
+            raise RuntimeError(f"{o[1]} on case {case}")
+        vals[fe] = (o[1], tuple(o[2]), o[3]) if o[0] == "val" else ("odd", o[1])
+    info = {"expect": "mixed", "refusals": [fe for fe in FRONTENDS if obs.get(fe, ("",))[0] == "refuse"]}
+    if len(set(vals.values())) <= 1:
+        return [], info
+    groups = {}
+    for fe, val in vals.items():
+        groups.setdefault(val, []).append(fe)
+    seen = {fe: (o[:3] + o[4:] if o[0] == "val" else o[:3]) for fe, o in obs.items()}
+    detail = (f"{case['text']} (opset {case['V']}, position {case['p']}, operands { {k: o['dtype'] for k, o in case['operands'].items()} }): "
+              f"front ends that accept the mixed-type list disagree: {seen}")
+    return [("disagree:mixed-type list literal", detail)], info
 
 
 def baseline_refuses(fe, case, session_factory):
@@ -779,24 +828,26 @@ def run_exhaustive(spec, col):
     only = os.environ.get("VERIF_ONLY")
     EXCL = active_exclusions(spec)
     vio_ops = {}
+    ncase = 0
     for name, since, V in spec["ops"]:
         if only and only != name:
             col.extra["exhaustive_complete"] = False
             continue
-        stmts = build_stmts(name, since, V, MAIN_LITERALS, spec["tail_extra"], skip=col.skip, exclude=EXCL, excluded=col.exclude)
+        stmts = build_stmts(name, since, V, spec["literals"], spec["tail_extra"], skip=col.skip, exclude=EXCL, excluded=col.exclude)
         col.hist[f"ops_enumerated"] += 1
         if not stmts:
             continue
         unit = StaticUnit(V, [s["text"] for s in stmts])
         for k, stmt in enumerate(stmts):
             for d in stmt["sib_dtypes"]:
+                ncase += 1
                 case = instantiate(stmt, d)
                 sobs = unit.observe(k, case["p"], case["operands"])
                 obs = observe_case(case, static_obs=sobs)
                 verdicts, info = judge(case, obs)
                 key = (name, since, case["text"], case["p"], tuple(sorted((n, o["dtype"]) for n, o in case["operands"].items())))
                 col.case(key, nontrivial(case), case_classes(case, info, obs),
-                         sample={"call": case["text"], "opset": V, "position": case["p"], "operands": {n: o["dtype"] for n, o in case["operands"].items()},
+                         sample=None if ncase % 211 else {"call": case["text"], "opset": V, "position": case["p"], "operands": {n: o["dtype"] for n, o in case["operands"].items()},
                                  "rule_target": case["target"], "observed": {fe: list(o[:3]) + list(o[4:]) if o[0] == "val" else list(o)[:3] for fe, o in obs.items()}})
                 for bucket, detail in verdicts:
                     col.violation(bucket, detail, {"kind": "single", "case": case}, size=1)
@@ -816,6 +867,7 @@ SEQ_GROUPS = {
     "inexact": ["0.1", "0.001", "1e-9", "1e39", "[0.1]", "16777217", "16777217.0", "[16777217.0]"],
     "big": ["9007199254740992", "9007199254740993", "9007199254740992.0", "9007199254740994.0", "9223372036854775807",
             "[9007199254740993]"],
+    "mixed": ["[1, 2.5]", "[2.5, 1]", "[True, 2]", "[1, True]", "[0.5, True]", "[0, 1.0]", "[1, 2]", "[0.5]"],
     "special": ["NAN", "1e999", "-1e999", "[1e999]", "0.0", "-0.0"],
 }
 SEQ_LITERALS = sorted({x for g in SEQ_GROUPS.values() for x in g})
@@ -861,6 +913,9 @@ def _region_hits(items):
     for i, c in enumerate(items):
         v = lit_value(c["lit"])
         elems = v if isinstance(v, list) else [v]
+        if is_mixed(v):
+            hits.append(("mixed_type_list", i))
+            continue
         # static route and untyped builder: float literal -> FLOAT constant -> CastLike: value passes through float32
         if any(isinstance(e, float) and not isinstance(e, bool) and math.isfinite(e) and float(np.float32(e)) != e for e in elems) \
                 and c["target"] != "FLOAT" and expect(v, c["target"])[0] == "exact":
@@ -868,6 +923,8 @@ def _region_hits(items):
         for typed in (True, False):
             key, bits = _builder_key(c, typed)
             for j in range(i):
+                if is_mixed(lit_value(items[j]["lit"])):
+                    continue  # heterogeneous lists never enter the cache
                 key2, bits2 = _builder_key(items[j], typed)
                 if key2[1] != key[1]:
                     continue
@@ -989,11 +1046,10 @@ def run_sequences(spec, col):
 
 # ----------------------------------------------------------------------------- module contract
 def plan(tier, seed, budget):
-    lo, hi, tail = (13, 23, 1) if tier == "quick" else (1, 23, 3)
+    lo, hi, tail, lits = (13, 23, 1, MAIN_LITERALS) if tier == "quick" else (1, 23, 3, THOROUGH_LITERALS)
     table, skipped = op_table(lo, hi)
     nsh = 16 if tier == "quick" else 48
-    # deterministic greedy balance by number of inputs
-    specs = [{"part": "exhaustive", "ops": [], "tail_extra": tail} for _ in range(nsh)]
+    specs = [{"part": "exhaustive", "ops": [], "tail_extra": tail, "literals": lits} for _ in range(nsh)]  # ops dealt round-robin
     for i, t in enumerate(table):
         specs[i % nsh]["ops"].append(list(t))
     specs[0]["skipped_ops"] = {f"{n}-{sv}": why for (n, sv), why in sorted(skipped.items())}
@@ -1059,5 +1115,5 @@ def _case_items(case):
 
 
 REGIONS = {name: (lambda case, _n=name: any(r == _n for r, _ in _region_hits(_case_items(case))))
-           for name in ("float_literal_rounded_via_float32", "builder_cache_conflates_signed_zero", "builder_nan_literal_twice")}
+           for name in ("float_literal_rounded_via_float32", "builder_cache_conflates_signed_zero", "builder_nan_literal_twice", "mixed_type_list")}
 REGIONS["keyword_input_after_omitted_optional"] = lambda case: any(c.get("form") == "keyword" and c.get("kwgap") for c in _case_items(case))
